@@ -20,6 +20,7 @@ import Ampverif.Gen.C09
 import Ampverif.Lemmas.C09Cayley
 import Ampverif.Lemmas.C09Real
 import Ampverif.Lemmas.C09Entries
+import Mathlib.Tactic.Positivity
 
 set_option linter.unusedVariables false
 set_option linter.unusedSectionVars false
@@ -785,6 +786,106 @@ theorem nrK22_eq_poleK (hm1 : 0 ≤ m_1) (hm2 : 0 ≤ m_2)
     generalize Real.sqrt m_1 = b1 at * <;> generalize Real.sqrt m_2 = b2 at * <;>
     subst q10 q11 q20 q21 p1 p2 <;> push_cast <;> ring
 end
+
+/-! ### the relativistic parametrisation is an instance of the all-poles formula -/
+
+section RelPole
+variable (s m_1 m_2 Gamma_1_0 Gamma_1_1 Gamma_2_0 Gamma_2_1 gamma_1_0 gamma_1_1 gamma_2_0 gamma_2_1 rho0 rho1 rhoR_1_0 rhoR_1_1 rhoR_2_0 rhoR_2_1 ff_0 ff_1 ff0_1_0 ff0_1_1 ff0_2_0 ff0_2_1 : ℝ)
+
+/-- The energy-dependent width `Γ(s) = Γ₀ (ff/ff₀)² ρ(s)/ρ(m_R²)` in the shape the source's
+`EnergyDependentWidth.evaluate()` produces. -/
+noncomputable def edw (Γ ff ff0 ρ ρR : ℝ) : ℝ := ff ^ 2 * (ff0 ^ 2)⁻¹ * ρR⁻¹ * Γ * ρ
+
+/-- residue functions `g_R,i(s) = γ_R,i √(m_R Γ_R,i(s))` of the relativistic parametrisation -/
+noncomputable def relG22 : Fin 2 → Fin 2 → ℝ :=
+  ![![gamma_1_0 * Real.sqrt (m_1 * edw Gamma_1_0 ff_0 ff0_1_0 rho0 rhoR_1_0),
+      gamma_1_1 * Real.sqrt (m_1 * edw Gamma_1_1 ff_1 ff0_1_1 rho1 rhoR_1_1)],
+    ![gamma_2_0 * Real.sqrt (m_2 * edw Gamma_2_0 ff_0 ff0_2_0 rho0 rhoR_2_0),
+      gamma_2_1 * Real.sqrt (m_2 * edw Gamma_2_1 ff_1 ff0_2_1 rho1 rhoR_2_1)]]
+
+theorem relK22_eq_poleK (hm1 : 0 ≤ m_1) (hm2 : 0 ≤ m_2)
+    (h10 : 0 ≤ Gamma_1_0) (h11 : 0 ≤ Gamma_1_1) (h20 : 0 ≤ Gamma_2_0) (h21 : 0 ≤ Gamma_2_1)
+    (hr0 : 0 < rho0) (hr1 : 0 < rho1) (hR10 : 0 < rhoR_1_0) (hR11 : 0 < rhoR_1_1)
+    (hR20 : 0 < rhoR_2_0) (hR21 : 0 < rhoR_2_1) :
+    !![relK22_00 s m_1 m_2 Gamma_1_0 Gamma_1_1 Gamma_2_0 Gamma_2_1 gamma_1_0 gamma_1_1 gamma_2_0 gamma_2_1 rho0 rho1 rhoR_1_0 rhoR_1_1 rhoR_2_0 rhoR_2_1 ff_0 ff_1 ff0_1_0 ff0_1_1 ff0_2_0 ff0_2_1,
+       relK22_01 s m_1 m_2 Gamma_1_0 Gamma_1_1 Gamma_2_0 Gamma_2_1 gamma_1_0 gamma_1_1 gamma_2_0 gamma_2_1 rho0 rho1 rhoR_1_0 rhoR_1_1 rhoR_2_0 rhoR_2_1 ff_0 ff_1 ff0_1_0 ff0_1_1 ff0_2_0 ff0_2_1;
+       relK22_10 s m_1 m_2 Gamma_1_0 Gamma_1_1 Gamma_2_0 Gamma_2_1 gamma_1_0 gamma_1_1 gamma_2_0 gamma_2_1 rho0 rho1 rhoR_1_0 rhoR_1_1 rhoR_2_0 rhoR_2_1 ff_0 ff_1 ff0_1_0 ff0_1_1 ff0_2_0 ff0_2_1,
+       relK22_11 s m_1 m_2 Gamma_1_0 Gamma_1_1 Gamma_2_0 Gamma_2_1 gamma_1_0 gamma_1_1 gamma_2_0 gamma_2_1 rho0 rho1 rhoR_1_0 rhoR_1_1 rhoR_2_0 rhoR_2_1 ff_0 ff_1 ff0_1_0 ff0_1_1 ff0_2_0 ff0_2_1]
+      = poleKMatrix (Finset.univ : Finset (Fin 2))
+          (relG22 m_1 m_2 Gamma_1_0 Gamma_1_1 Gamma_2_0 Gamma_2_1 gamma_1_0 gamma_1_1 gamma_2_0 gamma_2_1 rho0 rho1 rhoR_1_0 rhoR_1_1 rhoR_2_0 rhoR_2_1 ff_0 ff_1 ff0_1_0 ff0_1_1 ff0_2_0 ff0_2_1)
+          ![m_1, m_2] s := by
+  have x10 : 0 ≤ edw Gamma_1_0 ff_0 ff0_1_0 rho0 rhoR_1_0 := by unfold edw; positivity
+  have x11 : 0 ≤ edw Gamma_1_1 ff_1 ff0_1_1 rho1 rhoR_1_1 := by unfold edw; positivity
+  have x20 : 0 ≤ edw Gamma_2_0 ff_0 ff0_2_0 rho0 rhoR_2_0 := by unfold edw; positivity
+  have x21 : 0 ≤ edw Gamma_2_1 ff_1 ff0_2_1 rho1 rhoR_2_1 := by unfold edw; positivity
+  have q10 := Real.sq_sqrt x10
+  have q11 := Real.sq_sqrt x11
+  have q20 := Real.sq_sqrt x20
+  have q21 := Real.sq_sqrt x21
+  have p1 := Real.sq_sqrt hm1
+  have p2 := Real.sq_sqrt hm2
+  -- the complex square roots of the generated term are the real ones
+  have c10 := csqrt_ofReal x10
+  have c11 := csqrt_ofReal x11
+  have c20 := csqrt_ofReal x20
+  have c21 := csqrt_ofReal x21
+  conv at c10 => lhs; unfold edw; simp only [Complex.ofReal_mul, Complex.ofReal_pow, Complex.ofReal_inv]
+  conv at c11 => lhs; unfold edw; simp only [Complex.ofReal_mul, Complex.ofReal_pow, Complex.ofReal_inv]
+  conv at c20 => lhs; unfold edw; simp only [Complex.ofReal_mul, Complex.ofReal_pow, Complex.ofReal_inv]
+  conv at c21 => lhs; unfold edw; simp only [Complex.ofReal_mul, Complex.ofReal_pow, Complex.ofReal_inv]
+  ext i j
+  fin_cases i <;> fin_cases j <;>
+    simp only [poleKMatrix, poleK, relG22, relK22_00, relK22_01, relK22_10, relK22_11, Fin.sum_univ_two,
+      c10, c11, c20, c21, Real.sqrt_mul hm1, Real.sqrt_mul hm2] <;>
+    generalize Real.sqrt (edw Gamma_1_0 ff_0 ff0_1_0 rho0 rhoR_1_0) = a10 at * <;>
+    generalize Real.sqrt (edw Gamma_1_1 ff_1 ff0_1_1 rho1 rhoR_1_1) = a11 at * <;>
+    generalize Real.sqrt (edw Gamma_2_0 ff_0 ff0_2_0 rho0 rhoR_2_0) = a20 at * <;>
+    generalize Real.sqrt (edw Gamma_2_1 ff_1 ff0_2_1 rho1 rhoR_2_1) = a21 at * <;>
+    generalize Real.sqrt m_1 = b1 at * <;> generalize Real.sqrt m_2 = b2 at * <;>
+    subst p1 p2 <;>
+    (unfold edw at q10 q11 q20 q21) <;>
+    (have e10 := congrArg (fun x : ℝ => (x : ℂ)) q10
+     have e11 := congrArg (fun x : ℝ => (x : ℂ)) q11
+     have e20 := congrArg (fun x : ℝ => (x : ℂ)) q20
+     have e21 := congrArg (fun x : ℝ => (x : ℂ)) q21
+     simp
+     push_cast at e10 e11 e20 e21 ⊢
+     first
+       | ring1
+       | linear_combination (exp := 1) (-((((b1 : ℂ) ^ 2) ^ 2 - (s : ℂ))⁻¹ * (gamma_1_0 : ℂ) ^ 2 * (b1 : ℂ) ^ 2)) * e10
+           + (-((((b2 : ℂ) ^ 2) ^ 2 - (s : ℂ))⁻¹ * (gamma_2_0 : ℂ) ^ 2 * (b2 : ℂ) ^ 2)) * e20
+       | linear_combination (exp := 1) (-((((b1 : ℂ) ^ 2) ^ 2 - (s : ℂ))⁻¹ * (gamma_1_1 : ℂ) ^ 2 * (b1 : ℂ) ^ 2)) * e11
+           + (-((((b2 : ℂ) ^ 2) ^ 2 - (s : ℂ))⁻¹ * (gamma_2_1 : ℂ) ^ 2 * (b2 : ℂ) ^ 2)) * e21)
+
+/-- Hence the all-n / all-poles relativistic theorem applies to the source's own parametrisation:
+with `K̂` the regenerated `RelativisticKMatrix.parametrization` (2 channels, 2 poles) and any positive
+diagonal `ρ`, `√ρ K̂ (1 − iρK̂)⁻¹ √ρ` is unitary and symmetric. -/
+theorem relK22_all_poles_unitary_symmetric (hm1 : 0 ≤ m_1) (hm2 : 0 ≤ m_2)
+    (h10 : 0 ≤ Gamma_1_0) (h11 : 0 ≤ Gamma_1_1) (h20 : 0 ≤ Gamma_2_0) (h21 : 0 ≤ Gamma_2_1)
+    (hr0 : 0 < rho0) (hr1 : 0 < rho1) (hR10 : 0 < rhoR_1_0) (hR11 : 0 < rhoR_1_1)
+    (hR20 : 0 < rhoR_2_0) (hR21 : 0 < rhoR_2_1) (r : Fin 2 → ℝ) (hr : ∀ i, 0 < r i) :
+    (1 + (2 * Complex.I) • Trel r !![relK22_00 s m_1 m_2 Gamma_1_0 Gamma_1_1 Gamma_2_0 Gamma_2_1 gamma_1_0 gamma_1_1 gamma_2_0 gamma_2_1 rho0 rho1 rhoR_1_0 rhoR_1_1 rhoR_2_0 rhoR_2_1 ff_0 ff_1 ff0_1_0 ff0_1_1 ff0_2_0 ff0_2_1,
+        relK22_01 s m_1 m_2 Gamma_1_0 Gamma_1_1 Gamma_2_0 Gamma_2_1 gamma_1_0 gamma_1_1 gamma_2_0 gamma_2_1 rho0 rho1 rhoR_1_0 rhoR_1_1 rhoR_2_0 rhoR_2_1 ff_0 ff_1 ff0_1_0 ff0_1_1 ff0_2_0 ff0_2_1;
+        relK22_10 s m_1 m_2 Gamma_1_0 Gamma_1_1 Gamma_2_0 Gamma_2_1 gamma_1_0 gamma_1_1 gamma_2_0 gamma_2_1 rho0 rho1 rhoR_1_0 rhoR_1_1 rhoR_2_0 rhoR_2_1 ff_0 ff_1 ff0_1_0 ff0_1_1 ff0_2_0 ff0_2_1,
+        relK22_11 s m_1 m_2 Gamma_1_0 Gamma_1_1 Gamma_2_0 Gamma_2_1 gamma_1_0 gamma_1_1 gamma_2_0 gamma_2_1 rho0 rho1 rhoR_1_0 rhoR_1_1 rhoR_2_0 rhoR_2_1 ff_0 ff_1 ff0_1_0 ff0_1_1 ff0_2_0 ff0_2_1])ᴴ
+      * (1 + (2 * Complex.I) • Trel r !![relK22_00 s m_1 m_2 Gamma_1_0 Gamma_1_1 Gamma_2_0 Gamma_2_1 gamma_1_0 gamma_1_1 gamma_2_0 gamma_2_1 rho0 rho1 rhoR_1_0 rhoR_1_1 rhoR_2_0 rhoR_2_1 ff_0 ff_1 ff0_1_0 ff0_1_1 ff0_2_0 ff0_2_1,
+        relK22_01 s m_1 m_2 Gamma_1_0 Gamma_1_1 Gamma_2_0 Gamma_2_1 gamma_1_0 gamma_1_1 gamma_2_0 gamma_2_1 rho0 rho1 rhoR_1_0 rhoR_1_1 rhoR_2_0 rhoR_2_1 ff_0 ff_1 ff0_1_0 ff0_1_1 ff0_2_0 ff0_2_1;
+        relK22_10 s m_1 m_2 Gamma_1_0 Gamma_1_1 Gamma_2_0 Gamma_2_1 gamma_1_0 gamma_1_1 gamma_2_0 gamma_2_1 rho0 rho1 rhoR_1_0 rhoR_1_1 rhoR_2_0 rhoR_2_1 ff_0 ff_1 ff0_1_0 ff0_1_1 ff0_2_0 ff0_2_1,
+        relK22_11 s m_1 m_2 Gamma_1_0 Gamma_1_1 Gamma_2_0 Gamma_2_1 gamma_1_0 gamma_1_1 gamma_2_0 gamma_2_1 rho0 rho1 rhoR_1_0 rhoR_1_1 rhoR_2_0 rhoR_2_1 ff_0 ff_1 ff0_1_0 ff0_1_1 ff0_2_0 ff0_2_1]) = 1
+    ∧ (Trel r !![relK22_00 s m_1 m_2 Gamma_1_0 Gamma_1_1 Gamma_2_0 Gamma_2_1 gamma_1_0 gamma_1_1 gamma_2_0 gamma_2_1 rho0 rho1 rhoR_1_0 rhoR_1_1 rhoR_2_0 rhoR_2_1 ff_0 ff_1 ff0_1_0 ff0_1_1 ff0_2_0 ff0_2_1,
+        relK22_01 s m_1 m_2 Gamma_1_0 Gamma_1_1 Gamma_2_0 Gamma_2_1 gamma_1_0 gamma_1_1 gamma_2_0 gamma_2_1 rho0 rho1 rhoR_1_0 rhoR_1_1 rhoR_2_0 rhoR_2_1 ff_0 ff_1 ff0_1_0 ff0_1_1 ff0_2_0 ff0_2_1;
+        relK22_10 s m_1 m_2 Gamma_1_0 Gamma_1_1 Gamma_2_0 Gamma_2_1 gamma_1_0 gamma_1_1 gamma_2_0 gamma_2_1 rho0 rho1 rhoR_1_0 rhoR_1_1 rhoR_2_0 rhoR_2_1 ff_0 ff_1 ff0_1_0 ff0_1_1 ff0_2_0 ff0_2_1,
+        relK22_11 s m_1 m_2 Gamma_1_0 Gamma_1_1 Gamma_2_0 Gamma_2_1 gamma_1_0 gamma_1_1 gamma_2_0 gamma_2_1 rho0 rho1 rhoR_1_0 rhoR_1_1 rhoR_2_0 rhoR_2_1 ff_0 ff_1 ff0_1_0 ff0_1_1 ff0_2_0 ff0_2_1])ᵀ
+      = Trel r !![relK22_00 s m_1 m_2 Gamma_1_0 Gamma_1_1 Gamma_2_0 Gamma_2_1 gamma_1_0 gamma_1_1 gamma_2_0 gamma_2_1 rho0 rho1 rhoR_1_0 rhoR_1_1 rhoR_2_0 rhoR_2_1 ff_0 ff_1 ff0_1_0 ff0_1_1 ff0_2_0 ff0_2_1,
+        relK22_01 s m_1 m_2 Gamma_1_0 Gamma_1_1 Gamma_2_0 Gamma_2_1 gamma_1_0 gamma_1_1 gamma_2_0 gamma_2_1 rho0 rho1 rhoR_1_0 rhoR_1_1 rhoR_2_0 rhoR_2_1 ff_0 ff_1 ff0_1_0 ff0_1_1 ff0_2_0 ff0_2_1;
+        relK22_10 s m_1 m_2 Gamma_1_0 Gamma_1_1 Gamma_2_0 Gamma_2_1 gamma_1_0 gamma_1_1 gamma_2_0 gamma_2_1 rho0 rho1 rhoR_1_0 rhoR_1_1 rhoR_2_0 rhoR_2_1 ff_0 ff_1 ff0_1_0 ff0_1_1 ff0_2_0 ff0_2_1,
+        relK22_11 s m_1 m_2 Gamma_1_0 Gamma_1_1 Gamma_2_0 Gamma_2_1 gamma_1_0 gamma_1_1 gamma_2_0 gamma_2_1 rho0 rho1 rhoR_1_0 rhoR_1_1 rhoR_2_0 rhoR_2_1 ff_0 ff_1 ff0_1_0 ff0_1_1 ff0_2_0 ff0_2_1] := by
+  rw [relK22_eq_poleK s m_1 m_2 Gamma_1_0 Gamma_1_1 Gamma_2_0 Gamma_2_1 gamma_1_0 gamma_1_1 gamma_2_0
+    gamma_2_1 rho0 rho1 rhoR_1_0 rhoR_1_1 rhoR_2_0 rhoR_2_1 ff_0 ff_1 ff0_1_0 ff0_1_1 ff0_2_0 ff0_2_1
+    hm1 hm2 h10 h11 h20 h21 hr0 hr1 hR10 hR11 hR20 hR21]
+  exact rel_pole_unitary_symmetric_all_n_all_poles _ _ _ _ r hr
+
+end RelPole
 
 /-! ## Part E — the guard is needed -/
 
